@@ -1,7 +1,12 @@
 import WuffsVerif.Common.Line
 import WuffsVerif.Model.Interval
+import WuffsVerif.Model.IntervalHeap
 /-! Line driver for C06 (lib/interval).  Ops (bounds: decimal, or `inf` = nil):
-  add|sub|mul|quo|lsh|rsh|and|or|unite|intersect xlo xhi ylo yhi  -> ok lo hi | fail | panic
+  add|sub|mul|quo|lsh|rsh|and|or|unite|intersect xlo xhi ylo yhi  -> ok lo hi pl ph | fail | panic
+      (pl ph: provenance of the two result pointers in the heap model Model/IntervalHeap.lean:
+       `-` nil, `f` a new object, `x0 x1 y0 y1` an operand's pointer, `one minusOne mask<n>` a
+       package-level object; the values are those of the value model, and the line is
+       `heap-model-diverges …` should the heap model compute anything else)
   andmax|ormax xlo xhi ylo yhi -> v n | panic
   abnn|obnn|aonn|oonn xlo xhi ylo yhi -> ok lo hi | panic   (andBothNonNeg, orBothNonNeg,
       andOneNegOneNonNeg(neg, non), orOneNegOneNonNeg(neg, non); panic = pre-condition failure)
@@ -36,6 +41,50 @@ def parse2 (a b c d : String) : Option (IR × IR) := do
   let xl ← parseBound a; let xh ← parseBound b
   let yl ← parseBound c; let yh ← parseBound d
   pure (⟨xl, xh⟩, ⟨yl, yh⟩)
+
+/-! heap model: run the same call on pointers, report where the result pointers come from -/
+section heap
+open WuffsVerif.IntervalHeap
+
+def viewOf (h : Heap) (z : HIR) : IR := ⟨z.lo.map h.get, z.hi.map h.get⟩
+
+def provOf (x y : HIR) (n : Nat) (z : HIR) : String :=
+  (classify x y n z.lo).toString ++ " " ++ (classify x y n z.hi).toString
+
+/-- append the heap model's provenance to a value-model answer `p` (`ok lo hi`), provided the
+heap model computes the same values -/
+def withProv (p : String) (heapOut : String) : String :=
+  if heapOut.startsWith p then heapOut
+  else "heap-model-diverges value-model=[" ++ p ++ "] heap-model=[" ++ heapOut ++ "]"
+
+def heapRange (X Y : IR) (f : HIR → HIR → HM HIR) : String :=
+  let (x, y, h) := setup X Y
+  match f x y h with
+  | none => "panic"
+  | some (z, h') => "ok " ++ showIR (viewOf h' z) ++ " " ++ provOf x y h.size z
+
+def heapApi (op : Op) (X Y : IR) : String :=
+  let (x, y, h) := setup X Y
+  match runOp op x y h with
+  | none => "panic"
+  | some (none, _) => "fail"
+  | some (some z, h') => "ok " ++ showIR (viewOf h' z) ++ " " ++ provOf x y h.size z
+
+def heapSplit2 (X : IR) : String :=
+  let (x, y, h) := setup X ⟨none, none⟩
+  match split2Ways x h with
+  | none => "panic"
+  | some ((n, p, hn, hp), h') =>
+    s!"s {showIR (viewOf h' n)} {showIR (viewOf h' p)} {hn} {hp} {provOf x y h.size n} {provOf x y h.size p}"
+
+def heapSplit3 (X : IR) : String :=
+  let (x, y, h) := setup X ⟨none, none⟩
+  match split3Ways x h with
+  | none => "panic"
+  | some ((n, p, hn, hz, hp), h') =>
+    s!"s {showIR (viewOf h' n)} {showIR (viewOf h' p)} {hn} {hz} {hp} {provOf x y h.size n} {provOf x y h.size p}"
+
+end heap
 
 def parseBI (s : String) : Option BI :=
   if s == "-inf" then some .negInf else if s == "+inf" then some .posInf
@@ -114,8 +163,8 @@ def c06Helper (l : List String) : Option String :=
   | ["mullsh", sh, a, b, c, d] =>
     match parse2 a b c d with
     | some (x, y) =>
-      if sh == "0" then some ("ok " ++ showIR (mulLsh x y false))
-      else if sh == "1" then some ("ok " ++ showIR (mulLsh x y true))
+      if sh == "0" then some (withProv ("ok " ++ showIR (mulLsh x y false)) (heapRange x y (IntervalHeap.mulLsh · · false)))
+      else if sh == "1" then some (withProv ("ok " ++ showIR (mulLsh x y true)) (heapRange x y (IntervalHeap.mulLsh · · true)))
       else some "bad-op"
     | none => some "bad-op"
   | _ => none
@@ -132,23 +181,23 @@ def c06Step (l : List String) : String :=
       let okOpt (r : Option IR) (failWord : String) : String :=
         match r with | some z => "ok " ++ showIR z | none => failWord
       match op with
-      | "add" => "ok " ++ showIR (add x y)
-      | "sub" => "ok " ++ showIR (sub x y)
-      | "mul" => "ok " ++ showIR (mul x y)
-      | "unite" => "ok " ++ showIR (unite x y)
-      | "intersect" => "ok " ++ showIR (intersect x y)
-      | "quo" => okOpt (tryQuo x y) "fail"
-      | "lsh" => okOpt (tryLsh x y) "fail"
-      | "rsh" => okOpt (tryRsh x y) "fail"
-      | "abnn" => okOpt (andBothNonNeg x y) "panic"
-      | "obnn" => okOpt (orBothNonNeg x y) "panic"
-      | "aonn" => okOpt (andOneNegOneNonNeg x y) "panic"
+      | "add" => withProv ("ok " ++ showIR (add x y)) (heapApi .add x y)
+      | "sub" => withProv ("ok " ++ showIR (sub x y)) (heapApi .sub x y)
+      | "mul" => withProv ("ok " ++ showIR (mul x y)) (heapApi .mul x y)
+      | "unite" => withProv ("ok " ++ showIR (unite x y)) (heapApi .unite x y)
+      | "intersect" => withProv ("ok " ++ showIR (intersect x y)) (heapApi .intersect x y)
+      | "quo" => withProv (okOpt (tryQuo x y) "fail") (heapApi .quo x y)
+      | "lsh" => withProv (okOpt (tryLsh x y) "fail") (heapApi .lsh x y)
+      | "rsh" => withProv (okOpt (tryRsh x y) "fail") (heapApi .rsh x y)
+      | "abnn" => withProv (okOpt (andBothNonNeg x y) "panic") (heapRange x y IntervalHeap.andBothNonNeg)
+      | "obnn" => withProv (okOpt (orBothNonNeg x y) "panic") (heapRange x y IntervalHeap.orBothNonNeg)
+      | "aonn" => withProv (okOpt (andOneNegOneNonNeg x y) "panic") (heapRange x y IntervalHeap.andOneNegOneNonNeg)
       | "oonn" =>
         -- the Go orOneNegOneNonNeg has no pre-condition check of its own: same as the model
-        okOpt (orOneNegOneNonNeg x y) "panic"
-      | "ipu" => "ok " ++ showIR (inPlaceUnite x y)
-      | "and" => okOpt (Interval.and x y) "panic"
-      | "or" => okOpt (Interval.or x y) "panic"
+        withProv (okOpt (orOneNegOneNonNeg x y) "panic") (heapRange x y IntervalHeap.orOneNegOneNonNeg)
+      | "ipu" => withProv ("ok " ++ showIR (inPlaceUnite x y)) (heapRange x y IntervalHeap.inPlaceUnite)
+      | "and" => withProv (okOpt (Interval.and x y) "panic") (heapApi .and x y)
+      | "or" => withProv (okOpt (Interval.or x y) "panic") (heapApi .or x y)
       | "andmax" | "ormax" =>
         match x.lo, x.hi, y.lo, y.hi with
         | some xl, some xh, some yl, some yh =>
@@ -171,10 +220,10 @@ def c06Step (l : List String) : String :=
       match op with
       | "split2" =>
         let (n, p, hn, hp) := x.split2
-        s!"s {showIR n} {showIR p} {hn} {hp}"
+        withProv s!"s {showIR n} {showIR p} {hn} {hp}" (heapSplit2 x)
       | "split3" =>
         let (n, p, hn, hz, hp) := x.split3
-        s!"s {showIR n} {showIR p} {hn} {hz} {hp}"
+        withProv s!"s {showIR n} {showIR p} {hn} {hz} {hp}" (heapSplit3 x)
       | _ => "bad-op"
     | _, _ => "bad-op"
   | _ => "bad-op"
